@@ -62,8 +62,8 @@ def cand(local, k):
     return (local if k == 1 else "%s-%d" % (local, k)) + LOCAL
 
 
-def arec(name, rtype, addr):
-    return "%s,%d,0,120,%s,-,-,0,0,0,_,." % (hexs(name), rtype, addr)
+def arec(name, rtype, addr, ttl=120):
+    return "%s,%d,0,%d,%s,-,-,0,0,0,_,." % (hexs(name), rtype, ttl, addr)
 
 
 class Mirror:
@@ -96,13 +96,14 @@ def gen_script(rng, localraw, ifs, nops, focus):
     def conflict(kind):
         name = {"cur": cand(local, m.k), "prev": cand(local, max(1, m.k - 1)), "next": cand(local, m.k + 1),
                 "other": "zz" + LOCAL}[kind]
-        recs = [arec(name, rng.choice([1, 28]), "4:1" if rng.random() < 0.5 else "6:" + "00" * 15 + "09")]
+        # the TTL of a conflicting address record is irrelevant to the property (a goodbye, TTL 0, is "an address record of that name" too)
+        recs = [arec(name, rng.choice([1, 28]), "4:1" if rng.random() < 0.5 else "6:" + "00" * 15 + "09", rng.choice([120, 120, 120, 0, 0, 4500]))]
         if rng.random() < 0.2:
             recs.append(arec(cand(local, m.k + 1), 1, "4:2"))
         if rng.random() < 0.15:
             recs[0] = "%s,16,0,120,n,-,-,0,0,0,_,." % hexs(name)       # same name, not an address record
         lines.append("DELIVER 4:3232235777|5353|0|1|0||" + ";".join(recs))
-        if kind == "cur" and not m.reg and ",16,0,120" not in recs[0]:
+        if kind == "cur" and not m.reg and ",16,0,120," not in recs[0]:
             m.k += 1
             if len(recs) > 1:
                 m.k += 1
